@@ -472,6 +472,57 @@ def run(ctx):
                "checkpoint passed on as a dictionary (or kept by the default callback) no longer describes the iteration it was taken at")
     rv = extra.get("rng_state")
     okr = rv is not None and any(s_ == ("attr", ("attr", self_attr("rng"), "bit_generator"), "state") for s_ in T.subterms(rv))
+    # a mutable default argument is one object shared by every call: if a payload builder stores (or fills) it, all checkpoints of the
+    # process -- of every sampler instance -- share that entry and each new checkpoint rewrites the earlier ones
+    n_md = 0
+    builders = [f for f in repo.all_functions() if f.ident.startswith("aspire.samplers") and f.cls is not None
+                and (f.name in ("build_checkpoint_state", "_checkpoint_extra_state") or "checkpoint" in f.name)]
+    for f in builders:
+        a_ = f.node.args
+        pos_ = a_.posonlyargs + a_.args
+        pairs = list(zip(pos_[len(pos_) - len(a_.defaults):], a_.defaults)) + [(p_, d_) for p_, d_ in zip(a_.kwonlyargs, a_.kw_defaults) if d_ is not None]
+        for p_, d_ in pairs:
+            mutable = isinstance(d_, (ast.Dict, ast.List, ast.Set)) or (isinstance(d_, ast.Call) and isinstance(d_.func, ast.Name) and d_.func.id in ("dict", "list", "set", "defaultdict", "OrderedDict"))
+            if not mutable:
+                continue
+            n_md += 1
+            parents_ = {ch: pa for pa in ast.walk(f.node) for ch in ast.iter_child_nodes(pa)}
+            empty_default = (isinstance(d_, ast.Dict) and not d_.keys) or (isinstance(d_, (ast.List, ast.Set)) and not d_.elts) or (isinstance(d_, ast.Call) and not d_.args and not d_.keywords)
+
+            def harmless(n):
+                pa = parents_.get(n)
+                if isinstance(pa, ast.Call) and n in pa.args:
+                    fn_ = pa.func.id if isinstance(pa.func, ast.Name) else (pa.func.attr if isinstance(pa.func, ast.Attribute) else None)
+                    return fn_ in ("dict", "list", "set", "tuple", "frozenset", "deepcopy", "copy", "sorted", "len", "bool", "any", "all", "isinstance")
+                if isinstance(pa, ast.keyword) and pa.arg is None:
+                    return True  # f(**p): unpacked into a new mapping
+                if isinstance(pa, ast.Dict) and n in pa.values and pa.keys[pa.values.index(n)] is None:
+                    return True  # {**p}
+                if isinstance(pa, ast.Attribute) and pa.value is n:
+                    return pa.attr in ("get", "items", "keys", "values", "copy", "index", "count")
+                if isinstance(pa, ast.Subscript) and pa.value is n:
+                    return isinstance(pa.ctx, ast.Load)
+                if isinstance(pa, ast.BoolOp) and isinstance(pa.op, ast.Or) and empty_default and all(v is n or isinstance(v, (ast.Dict, ast.List, ast.Set)) for v in pa.values):
+                    return True  # `p or {}`: the (empty, falsy) default is never the value
+                if isinstance(pa, (ast.Compare, ast.If, ast.While, ast.IfExp, ast.UnaryOp)) and not (isinstance(pa, ast.IfExp) and n in (pa.body, pa.orelse)):
+                    return True
+                if isinstance(pa, (ast.For, ast.comprehension)) and pa.iter is n:
+                    return True
+                return False
+            uses = [n for n in walk_no_nested(f.node) if isinstance(n, ast.Name) and n.id == p_.arg and isinstance(n.ctx, ast.Load) and not harmless(n)]
+            rebound_first = False
+            for st_ in f.node.body:
+                # `meta = dict(meta)` style rebinding before any other use makes a private object
+                if isinstance(st_, ast.Assign) and any(isinstance(t, ast.Name) and t.id == p_.arg for t in st_.targets) and not any(u in set(ast.walk(st_)) for u in uses):
+                    rebound_first = True
+                    break
+                if any(isinstance(n, ast.Name) and n.id == p_.arg for n in ast.walk(st_)):
+                    break
+            ctx.decide(rebound_first or not uses, "C11.snapshot", f.ident, loc_of(f, d_),
+                       f"mutable default of `{p_.arg}` is copied before use",
+                       f"`{p_.arg}` defaults to a mutable object ({ast.unparse(d_)}) that this payload builder stores or fills: the one default object is shared by every checkpoint built in the process, "
+                       "so a checkpoint kept while sampling continues (or the last state of another sampler) silently takes the values of the newest one", disc=f"mutable-default|{p_.arg}")
+    ctx.count("mutable_defaults_in_payload_builders", n_md)
     ctx.decide(bool(okr), "C11.snapshot", ces0.ident, loc_of(ces0), "the generator state stored is read from the sampler's generator at checkpoint time",
                f"rng_state in the payload is {T.show(rv)[:100] if rv else 'absent'}", disc="rng")
 
@@ -861,10 +912,14 @@ MUTANTS += [
     M("finished run iterates again on resume", _B, "if last_beta >= 1.0:\n                run_smc_loop = False", "if last_beta > 1.0:\n                run_smc_loop = False", "C11.finished"),
     M("enlargement when sizes are equal", _B, "if n_final_samples is not None and len(samples.x) != n_final_samples:", "if n_final_samples is not None and len(samples.x) == n_final_samples:", "C11.idem"),
     M("enlargement guarded by the requested sizes", _B, "if n_final_samples is not None and len(samples.x) != n_final_samples:", "if n_final_samples is not None and n_final_samples != n_samples:", "C11.idem"),
+    M("payload metadata defaults to one shared dict that every checkpoint fills", "src/aspire/samplers/base.py", "meta: dict | None = None,\n    ) -> dict:", "meta: dict = {},\n    ) -> dict:", "C11.snapshot",
+      more=[("\"meta\": meta or {},", "\"meta\": meta,")]),
     M("history aliased into the checkpoint", _B, "history_copy = copy.deepcopy(self.history)", "history_copy = self.history", "C11.snapshot"),
     M("history shallow-copied into the checkpoint", _B, "history_copy = copy.deepcopy(self.history)", "history_copy = copy.copy(self.history)", "C11.snapshot"),
 ]
 NEUTRALS = [
+    M("payload metadata defaults to an empty dict that is copied before use", "src/aspire/samplers/base.py", "meta: dict | None = None,\n    ) -> dict:", "meta: dict = {},\n    ) -> dict:",
+      more=[("\"meta\": meta or {},", "\"meta\": dict(meta),")]),
     __import__("aspire_sa.rules.smcloop", fromlist=["HELPER_NEUTRAL"]).HELPER_NEUTRAL,
     M("flow preconditioning caches the (data-independent) dimension", "src/aspire/transforms.py", "self.flow = self._FlowClass(\n            dims=len(self.parameters),",
       "if getattr(self, \"_dims\", None) is None:\n            self._dims = len(self.parameters)\n        self.flow = self._FlowClass(\n            dims=self._dims,"),
